@@ -58,10 +58,16 @@ def _c(sc):
 @st.composite
 def shape(draw):
     """a complex mode shape as {'kind', 're', 'im'}"""
-    kind = draw(st.sampled_from(["generic", "generic", "unit", "zeros", "near_collinear", "collinear", "real"]))
+    kind = draw(st.sampled_from(["generic", "generic", "unit", "zeros", "near_collinear", "collinear", "real", "lattice"]))
     re = draw(real_vec())
     n = len(re)
-    if kind in ("real",):
+    if kind == "lattice":
+        # small whole-number components: exactly symmetric / exactly uncorrelated real and imaginary parts occur often
+        re = [float(draw(st.integers(-2, 2))) for _ in range(n)]
+        im = [float(draw(st.integers(-2, 2))) for _ in range(n)]
+        if not any(re) and not any(im):
+            re[0] = 1.0
+    elif kind in ("real",):
         im = [0.0] * n
     elif kind == "collinear":
         c = _c(draw(cscale()))
@@ -120,6 +126,17 @@ def _nontrivial(j, s):
     j.nontrivial(cplx or has_zero or s["kind"] in ("near_collinear", "collinear"))
 
 
+def _pure(j, fn, *arrs):
+    """call an indicator on private copies and check that it left them as they were (complex arrays are handed over
+    without conversion, so an in-place normalisation inside the library would show)"""
+    ins = [np.array(a, copy=True) for a in arrs]
+    keep = [a.copy() for a in ins]
+    r = sut(fn, *ins)
+    j.check(all(np.array_equal(a, b, equal_nan=True) for a, b in zip(ins, keep)), f"{getattr(fn, '__name__', 'indicator')}-mutates-input",
+            lambda: f"{getattr(fn, '__name__', 'indicator')} modified the array(s) it was given")
+    return r
+
+
 # ---------------------------------------------------------------------------
 # bounds
 # ---------------------------------------------------------------------------
@@ -130,7 +147,7 @@ def judge_bounds(case):
     _nontrivial(j, s)
     tol = 1e-9
     for name, fn, lo, hi in (("MPC", gen.MPC, 0, 1), ("MCF", gen.MCF, 0, 1), ("MPD", gen.MPD, 0, PI2)):
-        r = sut(fn, z.copy())
+        r = _pure(j, fn, z.copy())
         if not j.check(not raised(r), f"{name}-raises", lambda: f"{name} raised {r!r}"):
             continue
         v = _scalar(r)
@@ -142,7 +159,7 @@ def judge_bounds(case):
     # MAC against a second shape
     w = _z(case["psi"]) if len(case["psi"]["re"]) == len(z) else None
     if w is not None:
-        r = sut(gen.MAC, z.copy(), w.copy())
+        r = _pure(j, gen.MAC, z.copy(), w.copy())
         if j.check(not raised(r), "MAC-raises", lambda: f"MAC raised {r!r}"):
             v = _scalar(r)
             j.check(
@@ -199,8 +216,8 @@ def judge_mac_shape(case):
     p, q = X.shape[1], A.shape[1]
     j.tag(f"p={p},q={q}")
     j.nontrivial(p != q or p > 1)
-    r = sut(gen.MAC, X.copy(), A.copy())
-    r2 = sut(gen.MAC, A.copy(), X.copy())
+    r = _pure(j, gen.MAC, X.copy(), A.copy())
+    r2 = _pure(j, gen.MAC, A.copy(), X.copy())
     if not j.check(not raised(r) and not raised(r2), "MAC-raises", lambda: f"{r!r} {r2!r}"):
         return j
     r = np.asarray(r)
@@ -250,7 +267,7 @@ def judge_scale(case):
     zs = z * c
     aniso = _sens_guard(z)
     for name, fn, tol in (("MPC", gen.MPC, 1e-7), ("MCF", gen.MCF, 1e-7), ("MPD", gen.MPD, 1e-6)):
-        a, b = sut(fn, z.copy()), sut(fn, zs.copy())
+        a, b = _pure(j, fn, z.copy()), _pure(j, fn, zs.copy())
         if raised(a) or raised(b):
             j.check(False, f"{name}-raises", f"{a!r} {b!r}")
             continue
@@ -277,7 +294,7 @@ def judge_scale(case):
         j.check(abs(a - b) <= t, f"{name}-scale", lambda: f"{name}(phi)={a!r} {name}(c*phi)={b!r} c={c!r} n={len(z)}")
     w = _z(case["psi"])
     n = min(len(w), len(z))
-    a, b = sut(gen.MAC, z[:n].copy(), w[:n].copy()), sut(gen.MAC, zs[:n].copy(), w[:n].copy())
+    a, b = _pure(j, gen.MAC, z[:n].copy(), w[:n].copy()), _pure(j, gen.MAC, zs[:n].copy(), w[:n].copy())
     if raised(a) or raised(b):
         j.check(False, "MAC-raises", f"{a!r} {b!r}")
     else:
@@ -309,17 +326,17 @@ def judge_collinear(case):
         j.tag("has_zero_component")
     j.nontrivial(c.imag != 0 and c.real != 0)
     tol = 1e-7
-    r = sut(gen.MAC, z.copy(), v.copy())
+    r = _pure(j, gen.MAC, z.copy(), v.copy())
     x = None if raised(r) else _scalar(r)
     j.check(isinstance(x, float) and abs(x - 1) <= tol, "collinear-MAC", lambda: f"MAC(c*v, v)={r!r} v={v.tolist()[:8]} c={c!r}")
-    r = sut(gen.MPC, z.copy())
+    r = _pure(j, gen.MPC, z.copy())
     x = None if raised(r) else _scalar(r)
     j.check(isinstance(x, float) and abs(x - 1) <= tol, "collinear-MPC", lambda: f"MPC(c*v)={r!r} v={v.tolist()[:8]} c={c!r}")
-    r = sut(gen.MPD, z.copy())
+    r = _pure(j, gen.MPD, z.copy())
     x = None if raised(r) else _scalar(r)
     # arccos near 1: rounding of 1e-16 in the argument gives 1.5e-8 in the angle
     j.check(isinstance(x, float) and abs(x) <= 1e-6, "collinear-MPD", lambda: f"MPD(c*v)={r!r} v={v.tolist()[:8]} c={c!r}")
-    r = sut(gen.MCF, z.copy())
+    r = _pure(j, gen.MCF, z.copy())
     x = None if raised(r) else _scalar(r)
     j.check(isinstance(x, float) and abs(x) <= tol, "collinear-MCF", lambda: f"MCF(c*v)={r!r} v={v.tolist()[:8]} c={c!r}")
     return j
@@ -348,7 +365,7 @@ def judge_msf(case):
     if g < 0.05:
         j.skip("phiTphi-guard")
         return j
-    r = sut(gen.MSF, z.copy(), (c * z).copy())
+    r = _pure(j, gen.MSF, z.copy(), (c * z).copy())
     if not j.check(not raised(r), "MSF-raises", lambda: f"{r!r}"):
         return j
     x = _scalar(r)
@@ -367,17 +384,17 @@ def judge_sets(case):
     n, p = X.shape
     j.tag("more_shapes_than_components" if p > n else "tall_or_square")
     j.nontrivial(p >= 2)
-    r = sut(gen.MCF, X.copy())
+    r = _pure(j, gen.MCF, X.copy())
     if j.check(not raised(r), "MCF-set-raises", lambda: f"{r!r}"):
         r = np.asarray(r).reshape(-1)
         if j.check(r.shape == (p,), "MCF-set-shape", lambda: f"MCF of {p} shapes with {n} components returned {r.shape[0]} values"):
             for k in range(p):
-                one = sut(gen.MCF, X[:, k].copy())
+                one = _pure(j, gen.MCF, X[:, k].copy())
                 j.check(not raised(one) and abs(float(np.asarray(one).reshape(-1)[0]) - r[k]) <= 1e-12, "MCF-set-value", lambda: f"column {k}: {r[k]!r} vs single-shape value {one!r}")
                 j.check(-1e-9 <= r[k] <= 1 + 1e-9, "MCF-bounds", lambda: f"{r[k]!r}")
     q = min(p, A.shape[1])
     c = np.linspace(-2.0, 3.0, q) + 0.25
-    r = sut(gen.MSF, X[:, :q].real.copy(), (X[:, :q].real * c[None, :]).copy())
+    r = _pure(j, gen.MSF, X[:, :q].real.copy(), (X[:, :q].real * c[None, :]).copy())
     if j.check(not raised(r), "MSF-set-raises", lambda: f"{r!r}"):
         r = np.asarray(r).reshape(-1)
         ok = r.shape == (q,) and all(np.linalg.norm(X[:, k].real) < 1e-6 or abs(r[k] - c[k]) <= 1e-9 * max(1, abs(c[k])) for k in range(q))
